@@ -116,6 +116,7 @@ class Guards:
         fs = []
         for (d, s, lab) in self.dominating_edges(B):
             fs += self.edge_facts(d, s, lab)
+        fs += self.merge_facts(B)
         fs += type_invariants(self.tb)
         # flatten conjunctions produced by `&&` lowered to nested switches is automatic
         out = []
@@ -123,6 +124,49 @@ class Guards:
             if f not in out:
                 out.append(f)
         self._facts_memo[B] = out
+        return out
+
+    def merge_facts(self, B):
+        """disjunctive facts at merge points on B's dominator chain: a block with 2..4 forward predecessors
+        contributes ('or', (conj1, conj2, ..)) where conj_k are the facts gathered along predecessor k back to
+        the merge block's immediate dominator (`a == 0 || a < n` style guards)"""
+        b = self.body
+        out = []
+        cur = B
+        chain = []
+        while True:
+            chain.append(cur)
+            if cur == 0:
+                break
+            cur = b.idom.get(cur, 0)
+        for s in chain:
+            fwd = [(p, lab) for (p, lab) in b.pred[s] if not b.dominates(s, p)]
+            if not (2 <= len(fwd) <= 4) or s == 0:
+                continue
+            top = b.idom.get(s, 0)
+            conjs = []
+            okay = True
+            for (p, lab) in fwd:
+                fs = list(self.edge_facts(p, s, lab))
+                # facts along p's dominator chain down to (and including the out-edge of) `top`
+                x = p
+                guard = 0
+                while x != top and guard < 64:
+                    guard += 1
+                    preds = [(q, l2) for (q, l2) in b.pred[x] if not b.dominates(x, q)]
+                    if len(preds) != 1:
+                        okay = False
+                        break
+                    q, l2 = preds[0]
+                    fs += self.edge_facts(q, x, l2)
+                    x = q
+                if x != top:
+                    okay = False
+                if not okay:
+                    break
+                conjs.append(tuple(f for f in fs if f != ("const", True)))
+            if okay and all(conjs):
+                out.append(("or", tuple(conjs)))
         return out
 
     def facts_on_edge(self, d, s, lab):
@@ -242,6 +286,8 @@ def show(t, depth=0):
         return "%s.as_ptr()" % show(t[1], d)
     if k == "opq":
         return "opq" + str(t[1:])[:60]
+    if k == "or":
+        return " OR ".join("[" + " & ".join(show(f, d) for f in c) + "]" for c in t[1])
     if k == "dc":
         return "%s as v%d" % (show(t[1], d), t[2])
     return "%s(%s)" % (k, ", ".join(show(x, d) for x in t[1:]))
